@@ -499,6 +499,340 @@ Proof.
     destruct ok; inv H. cbn; unfold upd; rewrite Nat.eqb_refl; eexists; split; try reflexivity; cbn; lia.
 Qed.
 
+(* ---------------------------------------------------------------- termination after Cancel *)
+
+(** Combined statement over the interleaving.  "Own runner steps" of a thread are the events it
+    performs itself, the steps of its hook BODY (application code on the runner's goroutine: Lock /
+    Mutate / Unlock between HookCall and HookRet) not counted.  Environment / fairness hypotheses are
+    written out as Props in [tx_cancel_reaches_done] / [rx_reaches_done]:
+      - lock holders release: at the end of the observed finite run the mutex is free or owned by t;
+      - weak fairness for t: the run is not cut off while t still has an enabled step
+        ([quiescent s' t]: no event of t is enabled any more), which includes "hooks return"
+        (HookRet is always enabled inside a hook) and "TransmitFrame / Receive return";
+      - select fairness enters only as the NUMBER of times the select preferred another ready case
+        (wake-up, event, tick) over ctx.Done: it appears in the bound, it is not assumed bounded. *)
+
+Definition is_actor (t : tid) (e : event) : bool :=
+  match actor e with Some a => Nat.eqb a t | None => false end.
+
+Definition hook_body_step (h : thread) (e : event) : bool :=
+  match e with
+  | Mutate _ _ _ => true
+  | Lock _ => match h with
+              | TTx x => match t_pc x with XHU => true | _ => false end
+              | TRx RH => true
+              | _ => false
+              end
+  | Unlock _ => match h with
+                | TTx x => match t_pc x with XHL => true | _ => false end
+                | TRx RHL => true
+                | _ => false
+                end
+  | _ => false
+  end.
+
+(** number of own runner steps of t along the run of [tr] from [s] *)
+Fixpoint runner_steps (t : tid) (s : state) (tr : list event) : nat :=
+  match tr with
+  | [] => 0
+  | e :: tl =>
+      match step_fn s e with
+      | Some s1 => (if is_actor t e && negb (hook_body_step (th s t) e) then 1 else 0) + runner_steps t s1 tl
+      | None => 0
+      end
+  end.
+
+Fixpoint count_ev (f : event -> bool) (tr : list event) : nat :=
+  match tr with [] => 0 | e :: tl => (if f e then 1 else 0) + count_ev f tl end.
+
+(** the select of transmitter t took the wake-up, an event offer or a tick *)
+Definition sel_choice (t : tid) (e : event) : bool :=
+  match e with Wake t' | Accept t' _ | TickTake t' => Nat.eqb t' t | _ => false end.
+(** Receive() of receiver t delivered another frame *)
+Definition recv_frame (t : tid) (e : event) : bool :=
+  match e with Recv t' true => Nat.eqb t' t | _ => false end.
+
+(** distance to Done in own runner steps, when the select takes ctx.Done / Receive returns false *)
+Definition txr (p : tpc) : nat :=
+  match p with
+  | TDone => 0 | SEL => 1 | TFail | T1 => 2 | X9 | S4 => 3 | X8 | S3 => 4 | X7 | S2 => 5 | X6 | S1 => 6
+  | XHU | XHL | T0 => 7 | X5 => 8 | X4 => 9 | X3 => 10 | X2 => 11 | X1 => 12
+  end.
+Definition rxr (p : rpc) : nat :=
+  match p with
+  | RDone => 0 | REnd _ => 1 | RErr => 2 | R0 => 3 | RH | RHL => 4 | R8 => 5 | R7 _ => 6 | R6 => 7 | R5 => 8
+  | R4 => 9 | R3 => 10 | R2 => 11 | R1 => 12
+  end.
+
+Definition quiescent (s : state) (t : tid) : Prop :=
+  forall e s', is_actor t e = true -> step_fn s e <> Some s'.
+
+(** a step of somebody else leaves a receiver untouched and a transmitter at its program counter *)
+Lemma other_step s e s' t :
+  step_fn s e = Some s' -> is_actor t e = false ->
+  th s' t = th s t \/
+  (exists x x', th s t = TTx x /\ th s' t = TTx x' /\ t_pc x' = t_pc x) \/
+  (exists a a', th s t = TApp a /\ th s' t = TApp a').
+Proof.
+  intros H Ha. unfold is_actor in Ha.
+  destruct e; cbn in Ha; cbn [step_fn] in H; unfold on_thread in H; try (apply Nat.eqb_neq in Ha).
+  all: try (left; break_step; cbn; unfold upd; destruct (Nat.eqb_spec t t0); [congruence | reflexivity]; fail).
+  - (* Mutate t0 m v *) destruct (can_mutate (th s t0)); [|discriminate]. destruct (th s m) eqn:Em; inv H.
+    cbn. unfold upd. destruct (Nat.eqb_spec t m) as [->|]; [|left; reflexivity].
+    right; left. exists x. eexists. repeat split; eauto; try (destruct x; reflexivity).
+  - (* Accept t0 a *) destruct (th s t0) eqn:Et0; try discriminate. destruct (th s a) eqn:Ea; try discriminate.
+    destruct (t_pc x); try discriminate. destruct (a_pc a0); try discriminate. destruct (Nat.eqb m t0); inv H.
+    cbn. unfold upd. destruct (Nat.eqb_spec t a) as [->|].
+    + right; right. eexists; eexists; split; eauto.
+    + destruct (Nat.eqb_spec t t0); [congruence|]. left; reflexivity.
+  - (* SetFlag a m b *) destruct (th s a) eqn:Ea; try discriminate. destruct (th s m) eqn:Em; try discriminate.
+    destruct (a_pc a0); inv H. cbn. unfold upd. destruct (Nat.eqb_spec t a); [congruence|].
+    destruct (Nat.eqb_spec t m) as [->|]; [|left; reflexivity].
+    right; left. exists x. eexists. repeat split; eauto; try (destruct x; reflexivity).
+  - (* WakeSend a m *) destruct (th s a) eqn:Ea; try discriminate. destruct (th s m) eqn:Em; try discriminate.
+    destruct (a_pc a0); try discriminate. destruct (Nat.eqb m0 m); inv H. cbn. unfold upd.
+    destruct (Nat.eqb_spec t a); [congruence|].
+    destruct (Nat.eqb_spec t m) as [->|]; [|left; reflexivity].
+    right; left. exists x. eexists. repeat split; eauto; try (destruct x; reflexivity).
+  - (* Offer a m *) left. break_step; cbn; unfold upd; destruct (Nat.eqb_spec t a); [congruence | reflexivity].
+  - (* OfferAbort a *) left. break_step; cbn; unfold upd; destruct (Nat.eqb_spec t a); [congruence | reflexivity].
+  - (* Tick t0: no actor *) destruct (th s t0) eqn:Et0; try discriminate.
+    destruct (tx_local (cancelled s) x (Tick t0)) eqn:E; inv H. cbn. unfold upd.
+    destruct (Nat.eqb_spec t t0) as [->|]; [|left; reflexivity].
+    right; left. exists x. eexists. repeat split; eauto.
+    unfold tx_local in E. destruct (t_pc x) eqn:Epc; break_step; cbn; auto.
+  - (* Cancel *) inv H. left. reflexivity.
+  - (* Done t0 ok *) left. destruct (th s t0) eqn:Et0; try discriminate.
+    + destruct (rx_local p (Done t0 ok)); inv H. cbn. unfold upd. destruct (Nat.eqb_spec t t0); [congruence | reflexivity].
+    + destruct (tx_local (cancelled s) x (Done t0 ok)); inv H. cbn. unfold upd. destruct (Nat.eqb_spec t t0); [congruence | reflexivity].
+Qed.
+
+Lemma other_step_tx s e s' t x :
+  step_fn s e = Some s' -> is_actor t e = false -> th s t = TTx x ->
+  exists x', th s' t = TTx x' /\ t_pc x' = t_pc x.
+Proof.
+  intros H Ha Ht. destruct (other_step _ _ _ _ H Ha) as [E|[(y & y' & A & B & C)|(a & a' & A & B)]].
+  - exists x. rewrite E. auto.
+  - rewrite Ht in A. inv A. eauto.
+  - congruence.
+Qed.
+
+Lemma other_step_rx s e s' t p :
+  step_fn s e = Some s' -> is_actor t e = false -> th s t = TRx p -> th s' t = TRx p.
+Proof.
+  intros H Ha Ht. destruct (other_step _ _ _ _ H Ha) as [E|[(y & y' & A & B & C)|(a & a' & A & B)]]; congruence.
+Qed.
+
+(** cost of one own step of a transmitter *)
+Lemma own_step_cost_tx s e s' t x :
+  step_fn s e = Some s' -> th s t = TTx x -> is_actor t e = true ->
+  exists x', th s' t = TTx x' /\
+    (if hook_body_step (TTx x) e then 0 else 1) + txr (t_pc x') <= txr (t_pc x) + 12 * (if sel_choice t e then 1 else 0).
+Proof.
+  intros H Ht Ha. unfold is_actor in Ha.
+  destruct e; cbn in Ha; try discriminate; apply Nat.eqb_eq in Ha; subst;
+    cbn [step_fn] in H; unfold on_thread in H; rewrite ?Ht in H; cbn in H; try discriminate.
+  - destruct (owner s); [discriminate|]. destruct (t_pc x) eqn:Epc; inv H; cbn; unfold upd; rewrite Nat.eqb_refl;
+      eexists; (split; [reflexivity|]); cbn; rewrite ?Epc; cbn; lia.
+  - destruct (t_pc x) eqn:Epc; inv H; cbn; unfold upd; rewrite Nat.eqb_refl;
+      eexists; (split; [reflexivity|]); cbn; rewrite ?Epc; cbn; lia.
+  - destruct w; destruct (t_pc x) eqn:Epc; try discriminate; break_step; cbn; unfold upd; rewrite Nat.eqb_refl;
+      eexists; (split; [reflexivity|]); cbn; lia.
+  - destruct (t_pc x) eqn:Epc; inv H; cbn; unfold upd; rewrite Nat.eqb_refl; eexists; (split; [reflexivity|]); cbn; lia.
+  - destruct (t_pc x) eqn:Epc; inv H; cbn; unfold upd; rewrite Nat.eqb_refl; eexists; (split; [reflexivity|]);
+      destruct ok; cbn; lia.
+  - (* Mutate t m v by the hook body of t *)
+    destruct (t_pc x) eqn:Epc; try discriminate. destruct (th s m) eqn:Em; inv H. cbn. unfold upd.
+    destruct (Nat.eqb_spec t m) as [->|].
+    + rewrite Ht in Em. inv Em. eexists; split; [reflexivity|]. cbn. rewrite Epc. cbn. lia.
+    + exists x. split; auto. rewrite Epc. cbn. lia.
+  - unfold tx_local in H. destruct (t_pc x) eqn:Epc; inv H; cbn; unfold upd; rewrite Nat.eqb_refl;
+      eexists; (split; [reflexivity|]); cbn; lia.
+  - unfold tx_local in H. destruct (t_pc x) eqn:Epc; inv H; cbn; unfold upd; rewrite Nat.eqb_refl;
+      eexists; (split; [reflexivity|]). destruct (t_gotwake x); cbn; lia.
+  - unfold tx_local in H. destruct (t_pc x) eqn:Epc; inv H; cbn; unfold upd; rewrite Nat.eqb_refl;
+      eexists; (split; [reflexivity|]); cbn; lia.
+  - unfold tx_local in H. destruct (t_pc x) eqn:Epc; try discriminate. destruct (t_wake x); inv H.
+    cbn; unfold upd; rewrite Nat.eqb_refl; eexists; (split; [reflexivity|]); cbn; rewrite ?Nat.eqb_refl; cbn; lia.
+  - destruct (th s a) eqn:Ea; try discriminate. destruct (t_pc x) eqn:Epc; try discriminate.
+    destruct (a_pc a0); try discriminate. destruct (Nat.eqb m t); inv H.
+    cbn. unfold upd. destruct (Nat.eqb_spec t a) as [->|]; [congruence|]. rewrite Nat.eqb_refl.
+    eexists; (split; [reflexivity|]); cbn. lia.
+  - unfold tx_local in H. destruct (t_pc x) eqn:Epc; try discriminate. destruct (t_tick x); inv H.
+    cbn; unfold upd; rewrite Nat.eqb_refl; eexists; (split; [reflexivity|]); cbn; rewrite ?Nat.eqb_refl; cbn; lia.
+  - unfold tx_local in H. destruct (t_pc x) eqn:Epc; try discriminate. destruct (Nat.eqb f (t_snap x)); inv H.
+    cbn; unfold upd; rewrite Nat.eqb_refl; eexists; (split; [reflexivity|]). destruct ok; cbn; lia.
+  - unfold tx_local in H. destruct (t_pc x) eqn:Epc; try discriminate; break_step;
+      cbn; unfold upd; rewrite Nat.eqb_refl; eexists; (split; [reflexivity|]); cbn; lia.
+Qed.
+
+(** own runner steps of a transmitter are bounded by its distance to Done plus 12 per select
+    choice other than ctx.Done - in every run, under every interleaving with other threads *)
+Theorem tx_steps_bounded t : forall tr s s' x,
+  run s tr = Some s' -> th s t = TTx x ->
+  exists x', th s' t = TTx x' /\
+    runner_steps t s tr + txr (t_pc x') <= txr (t_pc x) + 12 * count_ev (sel_choice t) tr.
+Proof.
+  induction tr as [|e tl IH]; intros s s' x H Ht; cbn in H.
+  - inv H. exists x. split; auto. cbn. lia.
+  - destruct (step_fn s e) as [s1|] eqn:E; [|discriminate]. cbn [runner_steps count_ev]. rewrite E.
+    destruct (is_actor t e) eqn:Ea.
+    + destruct (own_step_cost_tx _ _ _ _ _ E Ht Ea) as (x1 & Ht1 & Hc).
+      destruct (IH _ _ _ H Ht1) as (x' & Ht' & Hb). exists x'. split; auto.
+      rewrite Ht. cbn [andb]. destruct (hook_body_step (TTx x) e); cbn [negb] in *; destruct (sel_choice t e); lia.
+    + destruct (other_step_tx _ _ _ _ _ E Ea Ht) as (x1 & Ht1 & Hp).
+      destruct (IH _ _ _ H Ht1) as (x' & Ht' & Hb). exists x'. split; auto.
+      assert (Hs : sel_choice t e = false).
+      { unfold is_actor in Ea. destruct e; cbn in *; auto. }
+      rewrite Hs. cbn [andb]. rewrite Hp in Hb. lia.
+Qed.
+
+(** progress: a cancelled transmitter that has not returned always has an enabled own step when
+    the mutex is free or its own (hooks return, TransmitFrame returns, the select sees ctx.Done) *)
+Theorem tx_progress cfg s t x :
+  reachable cfg s -> cancelled s = true -> th s t = TTx x -> t_pc x <> TDone ->
+  (owner s = None \/ owner s = Some t) ->
+  exists e s', is_actor t e = true /\ step_fn s e = Some s'.
+Proof.
+  intros Hr Hc Ht Hpc Ho. pose proof (I1_reachable _ _ Hr t) as HI. rewrite Ht in HI. cbn in HI.
+  assert (Hfree : tx_locked (t_pc x) = false -> owner s = None).
+  { intros Hl. destruct Ho as [Ho|Ho]; auto. apply HI in Ho. congruence. }
+  assert (Hact : forall e, actor e = Some t -> is_actor t e = true)
+    by (intros e He; unfold is_actor; rewrite He; apply Nat.eqb_refl).
+  destruct (t_pc x) eqn:Epc; try congruence.
+  - exists (TxInit t). eexists. split; [apply Hact; reflexivity|]. cbn. rewrite Ht. cbn. rewrite Epc. reflexivity.
+  - exists (Lock t). eexists. split; [apply Hact; reflexivity|]. cbn. rewrite (Hfree eq_refl), Ht. cbn. rewrite Epc. reflexivity.
+  - exists (Access t (WFlag (t_flag x))). eexists. split; [apply Hact; reflexivity|]. cbn. unfold on_thread. rewrite Ht. cbn.
+    rewrite Epc, Bool.eqb_reflx. reflexivity.
+  - exists (Unlock t). eexists. split; [apply Hact; reflexivity|]. cbn. rewrite Ht. cbn. rewrite Epc. reflexivity.
+  - exists (Apply t). eexists. split; [apply Hact; reflexivity|]. cbn. rewrite Ht. cbn. rewrite Epc. reflexivity.
+  - exists (GetWake t). eexists. split; [apply Hact; reflexivity|]. cbn. rewrite Ht. cbn. rewrite Epc. reflexivity.
+  - exists (Done t true). eexists. split; [apply Hact; reflexivity|]. cbn. rewrite Ht. cbn. rewrite Epc, Hc. reflexivity.
+  - exists (Lock t). eexists. split; [apply Hact; reflexivity|]. cbn. rewrite (Hfree eq_refl), Ht. cbn. rewrite Epc. reflexivity.
+  - exists (Access t WHook). eexists. split; [apply Hact; reflexivity|]. cbn. unfold on_thread. rewrite Ht. cbn. rewrite Epc. reflexivity.
+  - exists (Access t WTime). eexists. split; [apply Hact; reflexivity|]. cbn. unfold on_thread. rewrite Ht. cbn. rewrite Epc. reflexivity.
+  - exists (Unlock t). eexists. split; [apply Hact; reflexivity|]. cbn. rewrite Ht. cbn. rewrite Epc. reflexivity.
+  - exists (HookCall t). eexists. split; [apply Hact; reflexivity|]. cbn. unfold on_thread. rewrite Ht. cbn. rewrite Epc. reflexivity.
+  - exists (HookRet t true). eexists. split; [apply Hact; reflexivity|]. cbn. unfold on_thread. rewrite Ht. cbn. rewrite Epc. reflexivity.
+  - exists (Unlock t). eexists. split; [apply Hact; reflexivity|]. cbn. rewrite Ht. cbn. rewrite Epc. reflexivity.
+  - exists (Lock t). eexists. split; [apply Hact; reflexivity|]. cbn. rewrite (Hfree eq_refl), Ht. cbn. rewrite Epc. reflexivity.
+  - exists (Access t (WFrame (t_content x))). eexists. split; [apply Hact; reflexivity|]. cbn. unfold on_thread. rewrite Ht. cbn.
+    rewrite Epc, Nat.eqb_refl. reflexivity.
+  - exists (Unlock t). eexists. split; [apply Hact; reflexivity|]. cbn. rewrite Ht. cbn. rewrite Epc. reflexivity.
+  - exists (Transmit t (t_snap x) true). eexists. split; [apply Hact; reflexivity|]. cbn. rewrite Ht. cbn.
+    rewrite Epc, Nat.eqb_refl. reflexivity.
+  - exists (Done t false). eexists. split; [apply Hact; reflexivity|]. cbn. rewrite Ht. cbn. rewrite Epc. reflexivity.
+Qed.
+
+(** every transmitter reaches Done after Cancel: for any finite run from a reachable cancelled
+    state, under any interleaving, if at its end the lock is available to t and t has no enabled
+    step left (it was scheduled as long as it could move), then t has returned, and it needed at
+    most txr(pc) <= 12 own runner steps plus 12 for every time the select preferred a wake-up /
+    event / tick over ctx.Done *)
+Theorem tx_cancel_reaches_done cfg s tr s' t x :
+  reachable cfg s -> cancelled s = true -> run s tr = Some s' -> th s t = TTx x ->
+  (owner s' = None \/ owner s' = Some t) -> quiescent s' t ->
+  exists x', th s' t = TTx x' /\ t_pc x' = TDone /\
+             runner_steps t s tr <= txr (t_pc x) + 12 * count_ev (sel_choice t) tr.
+Proof.
+  intros Hr Hc Hrun Ht Ho Hq.
+  destruct (tx_steps_bounded t tr s s' x Hrun Ht) as (x' & Ht' & Hb).
+  exists x'. split; auto.
+  assert (Hr' : reachable cfg s') by (eapply run_reachable; eauto).
+  assert (Hc' : cancelled s' = true).
+  { clear -Hc Hrun. revert s Hc Hrun. induction tr as [|e tl IH]; intros s Hc H; cbn in H; [inv H; auto|].
+    destruct (step_fn s e) eqn:E; [|discriminate]. eapply IH; [|exact H]. eapply cancelled_stable; eauto. }
+  destruct (t_pc x') eqn:Epc; try (split; [reflexivity|lia]);
+    exfalso; (destruct (tx_progress cfg s' t x' Hr' Hc' Ht') as (e & s2 & Ha & Hs); [congruence|exact Ho|]);
+    exact (Hq e s2 Ha Hs).
+Qed.
+
+(** the receiver: cost of an own step, bound, progress, termination once Receive() returns false *)
+Lemma own_step_cost_rx s e s' t p :
+  step_fn s e = Some s' -> th s t = TRx p -> is_actor t e = true ->
+  exists p', th s' t = TRx p' /\
+    (if hook_body_step (TRx p) e then 0 else 1) + rxr p' <= rxr p + 10 * (if recv_frame t e then 1 else 0).
+Proof.
+  intros H Ht Ha. unfold is_actor in Ha.
+  destruct e; cbn in Ha; try discriminate; apply Nat.eqb_eq in Ha; subst;
+    cbn [step_fn] in H; unfold on_thread in H; rewrite ?Ht in H; cbn in H; try discriminate.
+  - destruct (owner s); [discriminate|]. destruct p; inv H; cbn; unfold upd; rewrite Nat.eqb_refl;
+      eexists; (split; [reflexivity|]); cbn; lia.
+  - destruct p; inv H; cbn; unfold upd; rewrite Nat.eqb_refl; eexists; (split; [reflexivity|]);
+      try destruct ok; cbn; lia.
+  - destruct p; destruct w; inv H; cbn; unfold upd; rewrite Nat.eqb_refl; eexists; (split; [reflexivity|]); cbn; lia.
+  - destruct p; inv H; cbn; unfold upd; rewrite Nat.eqb_refl; eexists; (split; [reflexivity|]); cbn; lia.
+  - destruct p; inv H; cbn; unfold upd; rewrite Nat.eqb_refl; eexists; (split; [reflexivity|]); destruct ok; cbn; lia.
+  - (* Mutate by the hook body *) destruct p; try discriminate. destruct (th s m) eqn:Em; inv H. cbn. unfold upd.
+    destruct (Nat.eqb_spec t m) as [->|]; [congruence|]. exists RHL. split; auto.
+  - destruct p; inv H; cbn; unfold upd; rewrite Nat.eqb_refl; eexists; (split; [reflexivity|]).
+    rewrite ?Nat.eqb_refl. destruct ok; cbn; rewrite ?Nat.eqb_refl; cbn; lia.
+  - destruct p; inv H; cbn; unfold upd; rewrite Nat.eqb_refl; eexists; (split; [reflexivity|]); cbn; lia.
+  - destruct p; inv H; cbn; unfold upd; rewrite Nat.eqb_refl; eexists; (split; [reflexivity|]); destruct known; cbn; lia.
+  - destruct p; inv H; cbn; unfold upd; rewrite Nat.eqb_refl; eexists; (split; [reflexivity|]); cbn; lia.
+  - destruct p; try discriminate. cbn in H. destruct (Bool.eqb ok ok0); inv H.
+    cbn; unfold upd; rewrite Nat.eqb_refl; eexists; (split; [reflexivity|]); cbn; lia.
+Qed.
+
+Theorem rx_steps_bounded t : forall tr s s' p,
+  run s tr = Some s' -> th s t = TRx p ->
+  exists p', th s' t = TRx p' /\
+    runner_steps t s tr + rxr p' <= rxr p + 10 * count_ev (recv_frame t) tr.
+Proof.
+  induction tr as [|e tl IH]; intros s s' p H Ht; cbn in H.
+  - inv H. exists p. split; auto. cbn. lia.
+  - destruct (step_fn s e) as [s1|] eqn:E; [|discriminate]. cbn [runner_steps count_ev]. rewrite E.
+    destruct (is_actor t e) eqn:Ea.
+    + destruct (own_step_cost_rx _ _ _ _ _ E Ht Ea) as (p1 & Ht1 & Hc).
+      destruct (IH _ _ _ H Ht1) as (p' & Ht' & Hb). exists p'. split; auto.
+      rewrite Ht. cbn [andb]. destruct (hook_body_step (TRx p) e); cbn [negb] in *; destruct (recv_frame t e); lia.
+    + pose proof (other_step_rx _ _ _ _ _ E Ea Ht) as Ht1.
+      destruct (IH _ _ _ H Ht1) as (p' & Ht' & Hb). exists p'. split; auto.
+      assert (Hs : recv_frame t e = false).
+      { unfold is_actor in Ea. destruct e; cbn in *; auto. destruct ok; auto. }
+      rewrite Hs. cbn [andb]. lia.
+Qed.
+
+Theorem rx_progress cfg s t p :
+  reachable cfg s -> th s t = TRx p -> p <> RDone -> (owner s = None \/ owner s = Some t) ->
+  exists e s', is_actor t e = true /\ recv_frame t e = false /\ step_fn s e = Some s'.
+Proof.
+  intros Hr Ht Hp Ho. pose proof (I1_reachable _ _ Hr t) as HI. rewrite Ht in HI. cbn in HI.
+  assert (Hfree : rx_locked p = false -> owner s = None).
+  { intros Hl. destruct Ho as [Ho|Ho]; auto. apply HI in Ho. congruence. }
+  assert (Hact : forall e, actor e = Some t -> is_actor t e = true)
+    by (intros e He; unfold is_actor; rewrite He; apply Nat.eqb_refl).
+  destruct p; try congruence.
+  - exists (Recv t false). eexists. repeat split; [apply Hact; reflexivity|]. cbn. rewrite Ht. reflexivity.
+  - exists (RxFrame t). eexists. repeat split; [apply Hact; reflexivity|]. cbn. rewrite Ht. reflexivity.
+  - exists (Lookup t false). eexists. repeat split; [apply Hact; reflexivity|]. cbn. rewrite Ht. reflexivity.
+  - exists (Lock t). eexists. repeat split; [apply Hact; reflexivity|]. cbn. rewrite (Hfree eq_refl), Ht. reflexivity.
+  - exists (Access t WHook). eexists. repeat split; [apply Hact; reflexivity|]. cbn. unfold on_thread. rewrite Ht. reflexivity.
+  - exists (Access t WTime). eexists. repeat split; [apply Hact; reflexivity|]. cbn. unfold on_thread. rewrite Ht. reflexivity.
+  - exists (Access t (WUnmarshal true)). eexists. repeat split; [apply Hact; reflexivity|]. cbn. unfold on_thread. rewrite Ht. reflexivity.
+  - exists (Unlock t). eexists. repeat split; [apply Hact; reflexivity|]. cbn. rewrite Ht. reflexivity.
+  - exists (HookCall t). eexists. repeat split; [apply Hact; reflexivity|]. cbn. unfold on_thread. rewrite Ht. reflexivity.
+  - exists (HookRet t true). eexists. repeat split; [apply Hact; reflexivity|]. cbn. unfold on_thread. rewrite Ht. reflexivity.
+  - exists (Unlock t). eexists. repeat split; [apply Hact; reflexivity|]. cbn. rewrite Ht. reflexivity.
+  - exists (RecvErr t true). eexists. repeat split; [apply Hact; reflexivity|]. cbn. rewrite Ht. reflexivity.
+  - exists (Done t ok). eexists. repeat split; [apply Hact; reflexivity|]. cbn. rewrite Ht. cbn. rewrite Bool.eqb_reflx. reflexivity.
+Qed.
+
+(** the receiver reaches Done: same shape; Run closes the connection on cancellation, after which
+    Receive() returns false - the frames still delivered before that are counted in the bound *)
+Theorem rx_reaches_done cfg s tr s' t p :
+  reachable cfg s -> run s tr = Some s' -> th s t = TRx p ->
+  (owner s' = None \/ owner s' = Some t) -> quiescent s' t ->
+  th s' t = TRx RDone /\ runner_steps t s tr <= rxr p + 10 * count_ev (recv_frame t) tr.
+Proof.
+  intros Hr Hrun Ht Ho Hq.
+  destruct (rx_steps_bounded t tr s s' p Hrun Ht) as (p' & Ht' & Hb).
+  assert (Hr' : reachable cfg s') by (eapply run_reachable; eauto).
+  destruct p'; try (split; [exact Ht'|lia]);
+    exfalso; (destruct (rx_progress cfg s' t _ Hr' Ht') as (e & s2 & Ha & _ & Hs); [congruence|exact Ho|]);
+    exact (Hq e s2 Ha Hs).
+Qed.
+
 (* ---------------------------------------------------------------- receive path *)
 
 (** declarative specification of the receiver, written without following the loop:
